@@ -96,7 +96,7 @@ var c12Names = []string{"PING", "Incr", "SET", "hset"}
 // scenario
 
 type c12Scn struct {
-	Path string  `json:"path"`           // decode | encode-resp | encode-writer | parse | encode-typed
+	Path string  `json:"path"`           // decode | encode-resp | encode-writer | encode-cluster | parse | resume | encode-typed
 	Fam  string  `json:"fam"`            // enumeration family
 	Cmds [][]int `json:"cmds"`           // per command: alphabet indexes of its arguments
 	HB   []int   `json:"hb"`             // heartbeats ("\n") before command i; last entry = after the last command
@@ -718,6 +718,8 @@ func c12RunEncode(s c12Scn) mc.Result {
 	var f *c12Fail
 	if s.Path == "encode-resp" {
 		f = c12Guard(func() *c12Fail { return c12EncodeResp(cmds, s.Buf, s.RBuf) })
+	} else if s.Path == "encode-cluster" {
+		f = c12Guard(func() *c12Fail { return c12EncodeCluster(cmds, s.Buf, s.RBuf) })
 	} else {
 		f = c12Guard(func() *c12Fail { return c12EncodeWriter(cmds, s.Buf, s.RBuf) })
 	}
@@ -840,10 +842,12 @@ func runC12(rep *mc.Reporter) {
 		rep.Exec(s, nil, res)
 	}
 	for _, ws := range []int{16, 64, 4096} {
-		if mine() {
-			rep.Scenario()
-			s := c12Scn{Path: "encode-typed", Fam: "typed", Buf: ws}
-			rep.Exec(s, nil, c12RunTyped(s))
+		for _, fam := range []string{"typed", "typed-cluster"} {
+			if mine() {
+				rep.Scenario()
+				s := c12Scn{Path: "encode-typed", Fam: fam, Buf: ws}
+				rep.Exec(s, nil, c12RunTyped(s))
+			}
 		}
 	}
 	encode := func(fam string, cmds [][]int) {
@@ -851,7 +855,7 @@ func runC12(rep *mc.Reporter) {
 			return
 		}
 		rep.Scenario()
-		for _, p := range []string{"encode-resp", "encode-writer"} {
+		for _, p := range []string{"encode-resp", "encode-writer", "encode-cluster"} {
 			for _, ws := range []int{16, 64, 4096} {
 				s := c12Scn{Path: p, Fam: fam, Cmds: cmds, HB: make([]int, len(cmds)+1), Buf: ws}
 				rep.Exec(s, nil, c12RunEncode(s))
